@@ -1,6 +1,6 @@
 (* C08 - connection close handshake.
    This file only pins statements. *)
-From Amq Require Import Lib.Base Gen.Consts Model.Wire Model.Frames Model.OutBuf Model.Collector Model.Slots Model.Core Spec.Slots Spec.Content Proofs.Slots Proofs.OutBuf Proofs.Collector Proofs.CoreContent Proofs.CoreInv Proofs.CoreMore Check.Core Proofs.Examples.
+From Amq Require Import Lib.Base Gen.Consts Model.Wire Model.Frames Model.OutBuf Model.Collector Model.Slots Model.Core Spec.Slots Spec.Content Proofs.Slots Proofs.OutBuf Proofs.Collector Proofs.CoreContent Proofs.CoreInv Proofs.CoreMore Check.Core Proofs.Examples Model.Close Proofs.Close.
 
 (* the client's Connection.Close is appended behind everything queued before and the buffer is sealed in the same step *)
 Theorem C08_client_close : forall (buf : bytes) (c : core), ob_sealed (c_out c) = false -> channel_message 0 (MsgConnClose buf) c = (OOk, seal (push_out c buf)) /\ ob (c_out (seal (push_out c buf))) = ob (c_out c) ++ buf /\ ob_sealed (c_out (seal (push_out c buf))) = true.
@@ -34,6 +34,14 @@ Proof. exact final_results. Qed.
 Theorem C08_close_ok_then_anything : forall (c : core) (fs : list dframe) (t : rterm) (o2 : outcome) (c2 : core), process_all c fs = (o2, c2) -> c_phase c2 = PClientClosed -> (forall site : N, o2 <> OPanic site) -> handle_event c (EvStream None (Some (fs, t))) = (OOk, c2, []).
 Proof. exact close_ok_then_anything. Qed.
 
+(* the caller's side of Connection::close (close_impl, Model/Close.v): whatever the close request on channel 0 itself returned (Ok, EventLoopDropped because the slot was dropped, the verdict left in the reply queue), an error the I/O thread ended with is what close() returns - the root cause, not a consequence of it *)
+Theorem C08_close_reports_root_cause : forall (req : req_res) (e : N), fst (close_impl true req (IoErr e)) = CErr e.
+Proof. exact close_reports_root_cause. Qed.
+
+(* close() returns Ok exactly when the I/O thread ended cleanly (the close handshake completed) and the close request was answered *)
+Theorem C08_close_ok_iff : forall (req : req_res) (io : io_end), fst (close_impl true req io) = COk <-> io = IoOk /\ req = ReqOk.
+Proof. exact close_ok_iff. Qed.
+
 (* non-vacuity: a client close in a reachable state - the Close is queued and seals the buffer,
    the server's CloseOk completes it: ClientClosed, done, result Ok, every queue told *)
 Example C08_example :
@@ -51,6 +59,8 @@ Check C08_server_close : forall (code : N) (text dbg : str) (c : core) (o : outc
 Check C08_done : forall c : core, (exists (code : N) (text : str), c_phase c = PServerClosing code text) \/ c_phase c = PClientException -> ob_sealed (c_out c) = true -> (is_done c = DDone <-> ob (c_out c) = []) /\ (ob (c_out c) <> [] -> is_done c = DNotDone).
 Check C08_results : forall c : core, (forall (code : N) (text : str), c_phase c = PServerClosing code text -> final_result c = OErr (EServerClosedConnection code text)) /\ (c_phase c = PClientException -> final_result c = OErr EClientException) /\ (c_phase c = PClientClosed -> final_result c = OOk /\ is_done c = DDone).
 Check C08_close_ok_then_anything : forall (c : core) (fs : list dframe) (t : rterm) (o2 : outcome) (c2 : core), process_all c fs = (o2, c2) -> c_phase c2 = PClientClosed -> (forall site : N, o2 <> OPanic site) -> handle_event c (EvStream None (Some (fs, t))) = (OOk, c2, []).
+Check C08_close_reports_root_cause : forall (req : req_res) (e : N), fst (close_impl true req (IoErr e)) = CErr e.
+Check C08_close_ok_iff : forall (req : req_res) (io : io_end), fst (close_impl true req io) = COk <-> io = IoOk /\ req = ReqOk.
 
 Print Assumptions C08_client_close.
 Print Assumptions C08_sealed_drops.
@@ -60,4 +70,6 @@ Print Assumptions C08_server_close.
 Print Assumptions C08_done.
 Print Assumptions C08_results.
 Print Assumptions C08_close_ok_then_anything.
+Print Assumptions C08_close_reports_root_cause.
+Print Assumptions C08_close_ok_iff.
 Print Assumptions C08_example.
